@@ -2366,6 +2366,21 @@ mod generics_search {
         found: bool,
     }
 
+    impl Visitor<'_> {
+        /// Checks whether the provided raw tokens mention any const parameter being searched.
+        fn any_const_in(&self, tokens: proc_macro2::TokenStream) -> bool {
+            tokens.into_iter().any(|tt| match tt {
+                proc_macro2::TokenTree::Ident(ident) => {
+                    self.search.consts.contains(&ident)
+                }
+                proc_macro2::TokenTree::Group(group) => {
+                    self.any_const_in(group.stream())
+                }
+                _ => false,
+            })
+        }
+    }
+
     impl<'ast> Visit<'ast> for Visitor<'_> {
         fn visit_type_path(&mut self, tp: &'ast syn::TypePath) {
             self.found |= tp.path.get_ident().is_some_and(|ident| {
@@ -2387,6 +2402,16 @@ mod generics_search {
             self.found |= self.search.lifetimes.contains(&lf.ident);
 
             syn::visit::visit_lifetime(self, lf)
+        }
+
+        fn visit_expr(&mut self, e: &'ast syn::Expr) {
+            // Without the `full` feature of `syn`, a braced const argument (like `Foo<{ N }>`) is
+            // parsed as a `syn::Expr::Verbatim`, which is not traversed any further.
+            if let syn::Expr::Verbatim(tokens) = e {
+                self.found |= self.any_const_in(tokens.clone());
+            }
+
+            syn::visit::visit_expr(self, e)
         }
 
         fn visit_expr_path(&mut self, ep: &'ast syn::ExprPath) {
